@@ -1,5 +1,5 @@
 SPECIFICATION Spec
-CONSTANT Ops = 5
+CONSTANT Ops = 4
 CONSTANT MaxD = 2
 CONSTANT MaxPause = 1
 CONSTANT Modes <- ModesBoth
